@@ -1234,7 +1234,7 @@ func (in *Interp) mkit(fl int) Value {
 			if fl&ItRetNotDone != 0 {
 				return in.iterResult("itRN", false)
 			}
-			r := in.iterResult(arg(args, 0), true)
+			r := in.iterResult(&ArrV{El: []Value{arg(args, 0)}}, true)
 			r.set("extra", 1.0)
 			return r
 		}})
